@@ -92,15 +92,15 @@ Additional Inputs:
     if info == 'not':
       return tuple(set([f for f in self if f not in self(solver, 'self')]))
     # do some filtering...
-    stop = {}
-    [stop.update({f : f(solver, info)}) for f in self]
-    _all = all(stop.values())
+    #NOTE: not a dict keyed on f, as And(a,b) == Or(a,b) (they are tuples)
+    stop = [f(solver, info) for f in self]
+    _all = all(stop)
     # return T/F if the conditions are met
     if not info: return _all
     # return the satisfied conditions
-    if info == 'self': return tuple(set(stop.keys())) if _all else ()
+    if info == 'self': return tuple(set(self)) if _all else ()
     # return info about the satisfied conditions
-    return "; ".join(set("; ".join(stop.values()).split("; "))) if _all else ""
+    return "; ".join(set("; ".join(stop).split("; "))) if _all else ""
 
   def __repr__(self):
     return "When(%s)" % str(self[0])
@@ -161,16 +161,15 @@ Additional Inputs:
     if info == 'not':
       return tuple(set([f for f in self if f not in self(solver, 'self')]))
     # do some filtering...
-    stop = {}
-    [stop.update({f : f(solver, info)}) for f in self]
-    _any = any(stop.values())
+    #NOTE: not a dict keyed on f, as And(a,b) == Or(a,b) (they are tuples)
+    stop = [f(solver, info) for f in self]
+    _any = any(stop)
     # return T/F if the conditions are met
     if not info: return _any
-    [stop.pop(cond) for (cond,met) in tuple(stop.items()) if not met]
     # return the satisfied conditions
-    if info == 'self': return tuple(set(stop.keys()))
+    if info == 'self': return tuple(set(f for (f,met) in zip(self,stop) if met))
     # return info about the satisfied conditions
-    return "; ".join(set("; ".join(stop.values()).split("; ")))
+    return "; ".join(set("; ".join(met for met in stop if met).split("; ")))
 
   def __repr__(self):
     return "Or%s" % str(tuple([f for f in self]))
